@@ -53,7 +53,7 @@ inductive Tree
   | pk (k : Key)
   | multiA (thr : Nat) (keys : List Key) (sort : Bool)
   | branch (l r : Tree)
-  deriving Repr
+  deriving Repr, DecidableEq
 
 /-- the fragment classes. -/
 inductive D
@@ -62,7 +62,7 @@ inductive D
   | multi (thr : Nat) (keys : List Key) (sort : Bool)
   | tr (k : Key) (tree : Option Tree) | rawtr (k : Key)
   | addr (a : List Char) | raw (script : Bytes)
-  deriving Repr
+  deriving Repr, DecidableEq
 
 /-! ## writer -/
 
@@ -212,12 +212,12 @@ def splitOn (sep : Char) : List Char → List (List Char)
 def stripSp (s : List Char) : List Char :=
   ((s.dropWhile (· == ' ')).reverse.dropWhile (· == ' ')).reverse
 
-def isDigit (c : Char) : Bool := '0' ≤ c && c ≤ '9'
+def isDigit (c : Char) : Bool := c.isDigit
 def isHexDigit (c : Char) : Bool := (hexVal? c).isSome
 
 /-- `[0-9]+` then `int()` -/
 def parseDec (s : List Char) : Option Nat :=
-  if s.isEmpty || !s.all isDigit then none else some (s.foldl (fun acc c => 10 * acc + (c.toNat - 48)) 0)
+  if s.isEmpty || !s.all isDigit then none else some (Nat.ofDigitChars 10 s 0)
 
 def hardOf (c : Char) : Option Hard :=
   if c = 'h' then some .h else if c = '\'' then some .apos else none
@@ -231,6 +231,17 @@ def stepOf (s : List Char) : P (Nat × Option Hard) :=
   | some v =>
     if v < HARDENED_OFFSET then .ok (v + (if hd.isSome then HARDENED_OFFSET else 0), hd) else .error .value
 
+/-- a list comprehension whose body may raise. -/
+def mapP {α β : Type} (f : α → P β) : List α → P (List β)
+  | [] => .ok []
+  | a :: as =>
+    match f a with
+    | .error e => .error e
+    | .ok b =>
+      match mapP f as with
+      | .error e => .error e
+      | .ok bs => .ok (b :: bs)
+
 /-- the last non-empty hardening symbol (`_hardening`). -/
 def lastHard : List (Option Hard) → Option Hard
   | [] => none
@@ -238,7 +249,7 @@ def lastHard : List (Option Hard) → Option Hard
 
 /-- `_pairs_from_der_path_str(steps, bip380_enforced=True)` on the already split steps. -/
 def stepsPath (steps : List (List Char)) : P (List Nat × Option Hard) :=
-  match (steps.map stripSp).mapM stepOf with
+  match mapP stepOf (steps.map stripSp) with
   | .error e => .error e
   | .ok pairs =>
     if pairs.length > MAX_PATH_STEPS then .error .value
@@ -376,7 +387,7 @@ def parseMultiArgs (o : KeyOracle) (xOnly compressed musigOk : Bool) (args : Lis
     match parseDec t with
     | none => .error .value
     | some thr =>
-      match (k :: ks).mapM (parseKey o xOnly compressed musigOk) with
+      match mapP (parseKey o xOnly compressed musigOk) (k :: ks) with
       | .error e => .error e
       | .ok keys => .ok (thr, keys)
   | _ => .error .value
@@ -422,6 +433,40 @@ def parseTree (o : KeyOracle) : Nat → Nat → List Char → P Tree
         | some _ => .error .value          -- `_assert_position(name, _P2TR, …)`: only pk() allows tr()
         | none => .error .unsupported      -- a tapscript miniscript leaf
 
+/-- `bytes.fromhex` allows spaces only between two-digit groups. -/
+def pairsAligned : List Char → Bool
+  | [] => true
+  | ' ' :: rest => pairsAligned rest
+  | _ :: ' ' :: _ => false
+  | _ :: _ :: rest => pairsAligned rest
+  | [_] => false
+
+/-- the readers `_PARSERS` points at (`_parse_pk` … `_parse_raw`); `pe` / `pt` are
+    `_parse_expression` / `_parse_tree` for the nested calls. -/
+def parseFn (o : KeyOracle) (pe : Ctx → List Char → P D) (pt : List Char → P Tree) (fn : Fn) (ctx : Ctx)
+    (args : List (List Char)) : P D :=
+  match fn with
+  | .pk => (oneArg args).bind fun a => (parseKey o (ctx == .tr) (noUncompressed ctx) false a).map .pk
+  | .pkh => (oneArg args).bind fun a => (parseKey o false (noUncompressed ctx) false a).map .pkh
+  | .wpkh => (oneArg args).bind fun a => (parseKey o false true false a).map .wpkh
+  | .combo => (oneArg args).bind fun a => (parseKey o false false false a).map .combo
+  | .sh => (oneArg args).bind fun a => (pe .sh a).map .sh
+  | .wsh => (oneArg args).bind fun a => (pe .wsh a).map .wsh
+  | .multi => (parseMultiArgs o false (noUncompressed ctx) false args).map fun r => .multi r.1 r.2 false
+  | .sortedmulti => (parseMultiArgs o false (noUncompressed ctx) false args).map fun r => .multi r.1 r.2 true
+  | .tr =>
+    match args with
+    | [k] => (parseKey o true true true k).map fun k => .tr k none
+    | [k, t] => (parseKey o true true true k).bind fun k => (pt t).map fun t => .tr k (some t)
+    | _ => .error .value
+  | .rawtr => (oneArg args).bind fun a => (parseKey o true true true a).map .rawtr
+  | .addr => (oneArg args).bind fun a => if o.validAddr a then .ok (.addr a) else .error .value
+  | .raw => (oneArg args).bind fun a =>
+      -- `bytes.fromhex` also skips ASCII whitespace between bytes; over INPUT_CHARSET that is the space
+      match hexBytes (a.filter (· != ' ')) with
+      | some b => if pairsAligned a then .ok (.raw b) else .error .value
+      | none => .error .value
+
 /-- `_parse_expression(expression, context, network, prv_keys)` -/
 def parseExpr (o : KeyOracle) : Nat → Ctx → List Char → P D
   | 0, _, _ => .error .value
@@ -438,37 +483,7 @@ def parseExpr (o : KeyOracle) : Nat → Ctx → List Char → P D
           if !fn.allowed ctx then .error .value else
           match splitArgs arguments with
           | .error x => .error x
-          | .ok args =>
-            match fn with
-            | .pk => (oneArg args).bind fun a => (parseKey o (ctx == .tr) (noUncompressed ctx) false a).map .pk
-            | .pkh => (oneArg args).bind fun a => (parseKey o false (noUncompressed ctx) false a).map .pkh
-            | .wpkh => (oneArg args).bind fun a => (parseKey o false true false a).map .wpkh
-            | .combo => (oneArg args).bind fun a => (parseKey o false false false a).map .combo
-            | .sh => (oneArg args).bind fun a => (parseExpr o fuel .sh a).map .sh
-            | .wsh => (oneArg args).bind fun a => (parseExpr o fuel .wsh a).map .wsh
-            | .multi => (parseMultiArgs o false (noUncompressed ctx) false args).map fun r => .multi r.1 r.2 false
-            | .sortedmulti => (parseMultiArgs o false (noUncompressed ctx) false args).map fun r => .multi r.1 r.2 true
-            | .tr =>
-              match args with
-              | [k] => (parseKey o true true true k).map fun k => .tr k none
-              | [k, t] =>
-                (parseKey o true true true k).bind fun k => (parseTree o fuel 0 t).map fun t => .tr k (some t)
-              | _ => .error .value
-            | .rawtr => (oneArg args).bind fun a => (parseKey o true true true a).map .rawtr
-            | .addr => (oneArg args).bind fun a => if o.validAddr a then .ok (.addr a) else .error .value
-            | .raw => (oneArg args).bind fun a =>
-                -- `bytes.fromhex` also skips ASCII whitespace between bytes; over INPUT_CHARSET that is the space
-                match hexBytes (a.filter (· != ' ')) with
-                | some b => if pairsAligned a then .ok (.raw b) else .error .value
-                | none => .error .value
-where
-  /-- `bytes.fromhex` allows spaces only between two-digit groups. -/
-  pairsAligned : List Char → Bool
-    | [] => true
-    | ' ' :: rest => pairsAligned rest
-    | _ :: ' ' :: _ => false
-    | _ :: _ :: rest => pairsAligned rest
-    | [_] => false
+          | .ok args => parseFn o (parseExpr o fuel) (parseTree o fuel 0) fn ctx args
 
 /-- `parse(descriptor, network, prv_keys)` after its type checks. -/
 def parse (o : KeyOracle) (s : List Char) : P D :=
